@@ -1,10 +1,11 @@
 #!/bin/bash
 # try_seed.sh <seedname> <prop>...: apply a stored seeded change to /repo, run the quick checks, undo.
 name=$1; shift
-cd /repo && git apply /verif/seeded/$name/patch.diff || exit 2
+P=/verif/seeded/$name/patch.diff; [ -f /verif/seeded/$name/patch_on_head.diff ] && P=/verif/seeded/$name/patch_on_head.diff
+cd /repo && { git apply $P 2>/dev/null || git apply -C1 /verif/seeded/$name/patch.diff 2>/dev/null || git apply --3way /verif/seeded/$name/patch.diff; } || exit 2
 for p in "$@"; do
   /verif/bin/govc check --prop $p --tier quick --no-evidence | grep -v "^FAILED\|^       " | tail -6
   echo "exit=$?"
 done
-git -C /repo checkout -- .
+git -C /repo reset -q --hard HEAD
 git -C /repo status --short
